@@ -158,13 +158,44 @@ def noPrematureGiveUp (T R : Nat) (tr : List Obs) : Bool :=
   | some ph => finalOK ph
   | none => true   -- rejected by the automaton: reported by `c02Check`
 
+/-- a datagram to the requesting client that is neither DATA nor OACK: the server ends the
+transfer of its own accord (an ERROR packet) -/
+def isServerError : Obs → Bool
+  | .send _ dst p => dst == 0 && !isFlow p
+  | _ => false
+
+def isEnded : Phase → Bool
+  | .ended => true
+  | _ => false
+
+/-- `ph`: phase of the C02 automaton before the remaining events, `sentRev`: the DATA packets sent
+to the client so far, newest first. A trace the automaton rejects is reported by `c02Check`. -/
+def errorsJustifiedFrom (T R : Nat) (ideal : List Bytes) : Phase → List Bytes → List Obs → Bool
+  | _, _, [] => true
+  | ph, sentRev, o :: rest =>
+    (!isServerError o || isEnded ph || dedupAdj sentRev.reverse == ideal) &&
+    match c02Step T R ph o with
+    | none => true
+    | some ph' => errorsJustifiedFrom T R ideal ph' ((clientData [o]).reverse ++ sentRev) rest
+
+/-- the server may end a transfer with a packet of its own (ERROR) only when the transfer is over
+anyway — the client sent an invalid packet or an ERROR, or the retry budget ran out (the C02
+automaton is in `ended`) — or when every ideal DATA packet has been sent before (counter overflow
+with wrapping disabled: the ideal sequence stops at block 65535). An ERROR packet out of the blue —
+before the first packet, while a packet is outstanding, after an acknowledgement with content left —
+is not an "abort" that excuses the missing rest. -/
+def serverErrorsJustified (T R : Nat) (ideal : List Bytes) (tr : List Obs) : Bool :=
+  errorsJustifiedFrom T R ideal .idle [] tr
+
 /-- C01 checker: what was sent is a prefix of the ideal packet sequence, and the whole of it
 unless the transfer was aborted (client error / invalid packet / retries exhausted / overflow);
-and it is not abandoned while the retry budget of the outstanding packet is not used up -/
+it is not abandoned while the retry budget of the outstanding packet is not used up; and the server
+itself aborts (sends ERROR) only in answer to the client's abort or after the last ideal packet -/
 def c01Check (na : Bool) (bs : Nat) (wrap : Option Nat) (T R : Nat) (content : Bytes) (tr : List Obs) : Bool :=
   let datas := dataFirsts tr
   let ideal := idealPackets wrap 0 (idealBlocks na bs content)
-  datas.isPrefixOf ideal && (sawAbort T R tr || datas == ideal) && noPrematureGiveUp T R tr
+  datas.isPrefixOf ideal && (sawAbort T R tr || datas == ideal) && noPrematureGiveUp T R tr &&
+    serverErrorsJustified T R ideal tr
 
 /-- payloads of the observed DATA packets -/
 def payloadsOf (datas : List Bytes) : List Bytes := datas.map (fun p => p.drop 4)
